@@ -37,12 +37,63 @@ fn cache() -> &'static Mutex<HashMap<String, Arc<File>>> {
     C.get_or_init(|| Mutex::new(HashMap::new()))
 }
 
+/// schema ids >= 100 are Avro-specific: columns whose encoders write into the sink with a bare `?`
+/// (100: Float32 + Float64, 101: FixedSizeBinary + uuid, 102: Interval(MonthDayNano) + Float64)
 fn input(spec: &str) -> (SchemaRef, Vec<RecordBatch>) {
-    make_batches(spec, None)
+    use arrow_array::{ArrayRef, FixedSizeBinaryArray, Float32Array, Float64Array, IntervalMonthDayNanoArray};
+    use arrow_buffer::IntervalMonthDayNano;
+    use arrow_schema::{DataType, Field, IntervalUnit, Schema};
+    let f: Vec<usize> = spec.split(':').map(|x| x.parse().expect("spec field")).collect();
+    if f[0] < 100 {
+        return make_batches(spec, None);
+    }
+    let (sid, nb, rows, seed) = (f[0], f[1], f[2], f[3]);
+    let mut rng = Rng::new(seed as u64 ^ 0xA7A0);
+    let schema: SchemaRef = Arc::new(match sid {
+        100 => Schema::new(vec![Field::new("f", DataType::Float32, false), Field::new("d", DataType::Float64, true)]),
+        101 => Schema::new(vec![
+            Field::new("fx", DataType::FixedSizeBinary(5), false),
+            Field::new("u", DataType::FixedSizeBinary(16), false)
+                .with_metadata(std::collections::HashMap::from([("logicalType".to_string(), "uuid".to_string())])),
+        ]),
+        _ => Schema::new(vec![
+            Field::new("iv", DataType::Interval(IntervalUnit::MonthDayNano), false),
+            Field::new("d", DataType::Float64, false),
+        ]),
+    });
+    let mut out = vec![];
+    for _ in 0..nb {
+        let cols: Vec<ArrayRef> = match sid {
+            100 => vec![
+                Arc::new(Float32Array::from((0..rows).map(|_| rng.range(-99, 99) as f32 * 0.25).collect::<Vec<_>>())),
+                Arc::new(Float64Array::from(
+                    (0..rows).map(|_| if rng.chance(1, 4) { None } else { Some(rng.range(-99, 99) as f64 * 0.5) }).collect::<Vec<_>>(),
+                )),
+            ],
+            101 => vec![
+                Arc::new(FixedSizeBinaryArray::try_from_iter((0..rows).map(|_| rng.bytes(5))).expect("fsb")),
+                Arc::new(FixedSizeBinaryArray::try_from_iter((0..rows).map(|_| rng.bytes(16))).expect("uuid")),
+            ],
+            _ => vec![
+                Arc::new(IntervalMonthDayNanoArray::from(
+                    (0..rows)
+                        .map(|_| IntervalMonthDayNano::new(rng.range(0, 20) as i32, rng.range(0, 40) as i32, rng.range(0, 5000) * 1_000_000))
+                        .collect::<Vec<_>>(),
+                )),
+                Arc::new(Float64Array::from((0..rows).map(|_| rng.range(-9, 9) as f64).collect::<Vec<_>>())),
+            ],
+        };
+        out.push(RecordBatch::try_new(schema.clone(), cols).expect("batch"));
+    }
+    (schema, out)
 }
 
+/// 5th spec field: 0/absent = object container file, 1 = single-object encoding stream
+fn format_id(spec: &str) -> usize {
+    spec.split(':').nth(4).map(|x| x.parse().unwrap()).unwrap_or(0)
+}
 fn is_soe(spec: &str) -> bool {
-    spec.split(':').nth(4) == Some("1")
+    format_id(spec) != 0
 }
 
 /// drive the OCF (or, 5th spec field = 1, single-object-encoding) writer over `sink`; `marks`
@@ -62,12 +113,22 @@ fn drive_writer(spec: &str, sink: FaultSink, marks: &mut Vec<usize>, out: &mut O
                     break;
                 }
             }
+            let failed_in_write = res.is_err();
             if res.is_ok() {
                 res = w.finish().map_err(|e| e.to_string());
             }
             if res.is_err() {
-                // the caller finalises anyway (cleanup path / retry)
+                // the caller keeps using the writer (next batch) and finalises anyway (cleanup path / retry);
+                // (after a failed `finish` every byte is already in the sink: writing more would be the
+                // caller adding rows, so the extra write is only made after a failed `write`)
                 out.accepted_at_error = Some(sink.data().len());
+                if failed_in_write {
+                    if let Some(b) = batches.last() {
+                        if w.write(b).is_ok() {
+                            out.later_ok.push("write".into());
+                        }
+                    }
+                }
                 if w.finish().is_ok() {
                     out.later_ok.push("finish#1".into());
                 }
@@ -79,7 +140,11 @@ fn drive_writer(spec: &str, sink: FaultSink, marks: &mut Vec<usize>, out: &mut O
             res
         }};
     }
-    if is_soe(spec) { go!(AvroSoeFormat) } else { go!(AvroOcfFormat) }
+    match format_id(spec) {
+        // (the bare binary format is rejected by `build`: it exists for `Encoder` only, no sink)
+        1 => go!(AvroSoeFormat),
+        _ => go!(AvroOcfFormat),
+    }
 }
 
 fn file(spec: &str) -> Arc<File> {
@@ -322,7 +387,7 @@ fn main() {
             for k in 0..=f.bytes.len() {
                 let line = format!("C18 avrot {spec} {} {} {k}", f.header, show_blocks(&f));
                 let nt = if k > 0 && k < f.bytes.len() { "nt" } else { "" };
-                emit(&mut sink, line, &format!("op:avrot schema:{} {nt}", schema_name(sid)));
+                emit(&mut sink, line, &format!("op:avrot schema:{} {nt}", schema_name(sid % 100)));
             }
         }
         for _ in 0..n {
@@ -340,13 +405,28 @@ fn main() {
             let line = format!("C18 avrorf {spec} A 0 {}", good.len());
             emit(&mut sink, line, "op:avrorf fault:A nt");
         }
-        for i in 0..n {
-            // every other input through the single-object-encoding writer
-            let spec = if i % 2 == 1 { format!("{}:1", gen_spec(&mut rng, &SCHEMAS)) } else { gen_spec(&mut rng, &SCHEMAS) };
+        // writer faults: a fixed grid — every schema family (incl. the columns whose encoders write
+        // with a bare `?`) x both sink formats (container file, single-object encoding stream),
+        // two batches so that the writer is used again after the failed write
+        let mut grid: Vec<String> = vec![];
+        for sid in [0usize, 1, 3, 100, 101, 102] {
+            for fmt in 0..2 {
+                grid.push(format!("{sid}:2:{}:{}:{fmt}", 1 + rng.usize(4), rng.usize(100000)));
+            }
+        }
+        for _ in 0..n.saturating_sub(6) {
+            grid.push(format!("{}:{}", gen_spec(&mut rng, &SCHEMAS), rng.usize(2)));
+        }
+        for spec in grid {
             let (_, trace) = fault_free_trace(&spec);
+            let sid: usize = spec.split(':').next().unwrap().parse().unwrap();
             for (sched, kind) in schedules_for(&trace) {
                 let line = format!("C18 avrowf {spec} {sched} {}", show_list(&trace));
-                emit(&mut sink, line, &format!("op:avrowf fault:{kind} format:{} nt", if is_soe(&spec) { "soe" } else { "ocf" }));
+                let tags = format!(
+                    "op:avrowf fault:{kind} format:{} avroschema:{sid} nt",
+                    ["ocf", "soe"][format_id(&spec)]
+                );
+                emit(&mut sink, line, &tags);
             }
         }
     }
